@@ -1,4 +1,5 @@
 import DnsVerif.Driver.Canon
+import DnsVerif.Lemmas.SafeRunMsg
 
 /-! Line-protocol driver for the model (see /verif/PROTOCOL.md): one op per stdin line, one result
 line per op. Built as `lean_exe driver` (nothing imported here touches Mathlib). -/
@@ -10,10 +11,12 @@ def withHex (h : String) (f : Bytes → String) : String :=
   | some b => f b
   | none => "bad-op"
 
-def decOut {α : Type} (r : Except DErr (α × D)) (p : α → String) : String :=
+/-- `costOnError` is the octet counter at the point of failure: the instrumented function `decodeXC` of
+Lemmas/SafeRun*.lean (proved equal to `d.cost` on success and bounded by `304·len + 304` on EVERY run) -/
+def decOut {α : Type} (r : Except DErr (α × D)) (p : α → String) (costOnError : Nat) : String :=
   match r with
   | .ok (v, d) => s!"ok {p v} cost={d.cost}"
-  | .error e => s!"err {pDErr e}"
+  | .error e => s!"err {pDErr e} cost={costOnError}"
 
 def encOut (r : Except EErr Bytes) : String :=
   match r with
@@ -236,15 +239,15 @@ def codeOp (ts : List String) (known : Nat → Bool) : String :=
 
 def handle (line : String) : String :=
   match line.trimAscii.toString.splitOn " " with
-  | ["dec.dns", h] => withHex h fun b => decOut (decodeDns b) pMsg
-  | ["dec.flags", h] => withHex h fun b => decOut (decodeFlags b) pFlags
-  | ["dec.question", h] => withHex h fun b => decOut (decodeQuestion b) pQuestion
-  | ["dec.rr", h] => withHex h fun b => decOut (decodeRR b) pRR
-  | ["dec.name", h] => withHex h fun b => decOut (decodeName b) pName
-  | ["dec.type", h] => withHex h fun b => decOut (decodeType b) toString
-  | ["dec.class", h] => withHex h fun b => decOut (decodeClass b) toString
-  | ["dec.qtype", h] => withHex h fun b => decOut (decodeQType b) toString
-  | ["dec.qclass", h] => withHex h fun b => decOut (decodeQClass b) toString
+  | ["dec.dns", h] => withHex h fun b => decOut (decodeDns b) pMsg (Safe.decodeDnsC b)
+  | ["dec.flags", h] => withHex h fun b => decOut (decodeFlags b) pFlags (Safe.decodeFlagsC b)
+  | ["dec.question", h] => withHex h fun b => decOut (decodeQuestion b) pQuestion (Safe.decodeQuestionC b)
+  | ["dec.rr", h] => withHex h fun b => decOut (decodeRR b) pRR (Safe.decodeRRC b)
+  | ["dec.name", h] => withHex h fun b => decOut (decodeName b) pName (Safe.decodeNameC b)
+  | ["dec.type", h] => withHex h fun b => decOut (decodeType b) toString (Safe.decodeTypeC b)
+  | ["dec.class", h] => withHex h fun b => decOut (decodeClass b) toString (Safe.decodeClassC b)
+  | ["dec.qtype", h] => withHex h fun b => decOut (decodeQType b) toString (Safe.decodeQTypeC b)
+  | ["dec.qclass", h] => withHex h fun b => decOut (decodeQClass b) toString (Safe.decodeQClassC b)
   | "enc.dns" :: ts => withVal parseMsg ts fun m => encOut (encodeDns m)
   | "enc.rr" :: ts => withVal parseRR ts fun r => encOut (encodeRR r)
   | "enc.struct" :: ts => withVal parseRR ts fun r => encOut (encodeRR r)
